@@ -27,22 +27,27 @@ ValidTarget(t) ==
 \* the Go struct: postings = "nil" is modelled by hasBitmap = FALSE
 NilList == [hasBitmap |-> FALSE, postings |-> {}, doc1 |-> -1, norm1 |-> 0, except |-> {}, exNil |-> TRUE, sb |-> 0]
 
-VARIABLES pl,      \* the (possibly reused) list object
+VARIABLES shared,  \* content of the process-wide emptyPostingsList (returned for absent terms / unknown fields when no
+                   \* list was handed in); must stay the nil list for ever
+          isShared,\* the caller's list object IS that shared object
+          pl,      \* the (possibly reused) list object
           itr,     \* the (possibly reused) iterator object: [doc1, norm1, consumed, src]
           cur,     \* the target of the last lookup
           via,     \* "prealloc" or "scratch" (dictionary iterator tmp)
           n, out   \* number of lookups; last observation [count, iter, first]
-vars == <<pl, itr, cur, via, n, out>>
+vars == <<shared, isShared, pl, itr, cur, via, n, out>>
 
 \* PostingsIterator fields that matter across reuse: the 1-hit cursor and which list it walks
 NilIter == [doc1 |-> -1, norm1 |-> 0, consumed |-> FALSE, src |-> {}]
 
-Init == itr = NilIter /\ pl = NilList /\ cur = [kind |-> "absentTerm", post |-> {}, except |-> {}, exNil |-> TRUE]
+Init == shared = NilList /\ isShared = FALSE /\ itr = NilIter /\ pl = NilList /\ cur = [kind |-> "absentTerm", post |-> {}, except |-> {}, exNil |-> TRUE]
         /\ via = "prealloc" /\ n = 0 /\ out = [count |-> 0, iter |-> "empty", first |-> -1]
 
 \* postingsListInit(rv, except): keep the bitmap allocation (cleared), clear everything else
 ListInit(l, t) ==
-    [hasBitmap |-> l.hasBitmap, postings |-> {}, doc1 |-> -1, norm1 |-> 0,
+    [hasBitmap |-> l.hasBitmap, postings |-> {},
+     doc1 |-> IF "InitKeepsOneHit" \in Dev THEN l.doc1 ELSE -1,          \* seeded C02-k: a "cheap" field-by-field reset
+     norm1 |-> IF "InitKeepsOneHit" \in Dev THEN l.norm1 ELSE 0,
      except |-> t.except, exNil |-> t.exNil,
      sb |-> IF t.kind = "unknownField" THEN 0 ELSE 1]        \* the empty dictionary has no segment
 
@@ -60,7 +65,8 @@ Count(l) ==
 
 \* PostingsList.Iterator(freq/norm/locs requested)
 IterKind(l) ==
-    IF l.norm1 = 0 /\ (~l.hasBitmap \/ (l.postings = {} /\ "NilOnlyEmptyCheck" \notin Dev)) THEN "empty"
+    IF "EmptyShortcutIgnoresOneHit" \in Dev /\ l.hasBitmap /\ l.postings = {} THEN "empty"     \* seeded C13-l
+    ELSE IF l.norm1 = 0 /\ (~l.hasBitmap \/ (l.postings = {} /\ "NilOnlyEmptyCheck" \notin Dev)) THEN "empty"
     ELSE IF l.norm1 # 0 THEN "onehit"
     ELSE IF l.sb = 0 THEN "crash"                 \* newChunkedIntDecoder(p.sb.data, ...) with a nil segment
     ELSE "general"
@@ -89,13 +95,19 @@ OpenAndNext(l, pre, advance) ==
 \* Dictionary.PostingsList(term, except, prealloc)
 Lookup(t, reuse, reuseIt, advance) ==
     /\ n < MaxLookups /\ ValidTarget(t)
-    /\ LET base == IF reuse THEN pl ELSE NilList
-           fresh == ~reuse
-           l == IF t.kind \in {"unknownField", "absentTerm"}
-                THEN (IF fresh THEN NilList ELSE ListInit(base, t))   \* rv == nil: the shared emptyPostingsList
+    /\ LET found == t.kind \notin {"unknownField", "absentTerm"}
+           \* postingsListInit: a nil prealloc - and the shared empty list, should a caller hand it back - is replaced
+           \* by a new object ("RecycleSharedEmpty", seeded C01-k: only nil is)
+           recycleShared == reuse /\ isShared /\ "RecycleSharedEmpty" \in Dev
+           fresh == ~reuse \/ (isShared /\ ~recycleShared)
+           base == IF fresh THEN NilList ELSE pl
+           l == IF ~found
+                THEN (IF fresh THEN shared ELSE ListInit(base, t))    \* rv == nil: the shared emptyPostingsList
                 ELSE ReadInto(ListInit(base, t), t)
            r == OpenAndNext(l, IF reuseIt THEN itr ELSE NilIter, advance)
        IN /\ pl' = l /\ itr' = r[1]
+          /\ isShared' = IF ~found THEN (fresh \/ recycleShared) ELSE recycleShared
+          /\ shared' = IF recycleShared THEN l ELSE shared             \* the write went into the shared object
           /\ out' = [count |-> Count(l), iter |-> IterKind(l), first |-> r[2]]
     /\ cur' = t /\ via' = "prealloc" /\ n' = n + 1
 
@@ -103,7 +115,8 @@ Lookup(t, reuse, reuseIt, advance) ==
 ScratchRead(t) ==
     /\ n < MaxLookups /\ ValidTarget(t) /\ t.kind \in {"onehit", "general"} /\ t.exNil
     /\ LET l == ReadInto([pl EXCEPT !.except = {}, !.exNil = TRUE], t) IN
-       /\ pl' = l /\ out' = [count |-> Count(l), iter |-> "n/a", first |-> -2] /\ UNCHANGED itr
+       /\ pl' = l /\ out' = [count |-> Count(l), iter |-> "n/a", first |-> -2] /\ UNCHANGED <<itr, shared>>
+       /\ isShared' = FALSE                                          \* the iterator's own scratch list
     /\ cur' = t /\ via' = "scratch" /\ n' = n + 1
 
 Next == \E t \in Targets : (\E r, ri, adv \in BOOLEAN : Lookup(t, r, ri, adv)) \/ ScratchRead(t)
@@ -116,6 +129,7 @@ ExpIter == IF cur.kind = "onehit" THEN "onehit" ELSE IF cur.kind = "general" THE
 CountRight == n > 0 => out.count = ExpCount
 IterRight == (n > 0 /\ via = "prealloc") => out.iter = ExpIter
 NoCrash == out.iter # "crash"
+SharedStaysEmpty == shared = NilList
 \* the first posting the (possibly reused) iterator returns is the first non-excluded posting of the list
 FirstRight == (n > 0 /\ via = "prealloc" /\ out.iter # "crash") =>
                   out.first = (LET a == cur.post \ cur.except IN IF a = {} THEN -1 ELSE CHOOSE d \in a : \A x \in a : d <= x)
